@@ -18,8 +18,56 @@ def showResBytes : Res (List Nat) → String
   | .ok b => s!"ok {showHex b}"
   | r => r.tag
 
+def showRow (b : Abi.Buf) (r : Abi.Row) : String :=
+  ",".intercalate (r.map fun c => match c with
+    | some (lo, hi) => showHex ((b.data.take hi).drop lo)
+    | none => "-")
+
+def showRows (b : Abi.Buf) (rs : List Abi.Row) : String := ";".intercalate (rs.map (showRow b))
+
+/-- run a sequence of inputs through ONE `Result` (reuse) -/
+def scanSeq (t : Abi.Ty) (capx : Nat) : Abi.St → List String → List String
+  | _, [] => []
+  | s, h :: rest =>
+    match hexArg h with
+    | none => ["bad-op"]
+    | some d =>
+      let b : Abi.Buf := { data := d, cap := d.length + capx }
+      match Abi.resultScan b t s with
+      | .ok s' => ("ok " ++ showRows b s'.rows) :: scanSeq t capx s' rest
+      | r => r.tag :: scanSeq t capx s rest
+
 def step (line : String) : String :=
   match (line.splitOn " ").filter (· ≠ "") with
+  | ["abitype", desc] =>
+    match Abi.parseDesc desc with
+    | none => "bad-op"
+    | some is => match Abi.eventAbiType is with
+      | .ok t => "ok " ++ t.show
+      | r => r.tag
+  | "scanseq" :: desc :: capx :: inputs =>
+    match Abi.parseDesc desc, capx.toNat? with
+    | some is, some cx => match Abi.eventAbiType is with
+      | .ok t => " | ".intercalate (scanSeq t cx (Abi.newResult t) inputs)
+      | r => r.tag
+    | _, _ => "bad-op"
+  | ["enc", desc, vdesc] =>
+    -- specification side: ABI-encode a value and state the rows the row rule demands
+    match Abi.parseDesc desc, Abi.parseValDesc vdesc with
+    | some is, some v => match Abi.eventAbiType is with
+      | .ok t =>
+        if !Abi.WellTyped t v then "ill-typed"
+        else
+          let rows := Abi.rowsOf t v
+          let showCell (c : Option (List Nat)) : String := match c with | some b => showHex b | none => "-"
+          s!"ok {showHex (Abi.enc t v)} {if t.inDomain then "dom" else "nodom"} " ++
+            ";".intercalate (rows.map fun r => ",".intercalate (r.map showCell))
+      | r => r.tag
+    | _, _ => "bad-op"
+  | ["sig", name, desc] =>
+    match Abi.parseDesc desc with
+    | none => "bad-op"
+    | some is => String.ofList (Abi.eventSignature (if name == "-" then [] else name.toList) is)
   | ["u64", tok] =>
     match hexArg tok with
     | some t => showResNat (Codec.uint64Unmarshal t)
